@@ -3,9 +3,10 @@
 
   Go passes a `*ExecuteCtx` that may be nil (`present = false`) and mutates it in place; here the
   context is an explicit state.  Maps are association lists kept sorted by key (rendering only).
-  The chunk cache key is formed exactly as the code forms it: `name ++ "-" ++ firstKey` as ONE
-  byte string (`fmt.Sprintf("%s-%s", name, string(key))`), so two (name, key) combinations
-  that collide in Go collide here.
+  The chunk cache key is formed exactly as the code forms it, as ONE byte string
+  (`chunkCacheKey`: `fmt.Sprintf("%d-%s-%s", len(name), name, string(key))`), so two (name, key)
+  combinations that collide in Go collide here (none does: `chunkKey_inj` in Proofs/CacheKey.lean;
+  before the repair the key was `name ++ "-" ++ firstKey`: `chunkKeyUnpatched`).
 -/
 import Kvql.Model.Value
 
@@ -39,8 +40,16 @@ def setFieldResult (c : Ctx) (name : Bytes) (v : Value) : Ctx :=
 
 def updateHit (c : Ctx) : Ctx := { c with hit := c.hit + 1 }
 
-/-- `fmt.Sprintf("%s-%s", name, string(key))` -/
-def chunkKey (name key : Bytes) : Bytes := name ++ [45] ++ key
+/-- `%d` of a length: the decimal digits -/
+def decDigits (n : Nat) : Bytes :=
+  if n < 10 then [UInt8.ofNat (48 + n)] else decDigits (n / 10) ++ [UInt8.ofNat (48 + n % 10)]
+decreasing_by omega
+
+/-- `chunkCacheKey`: `fmt.Sprintf("%d-%s-%s", len(name), name, string(key))` -/
+def chunkKey (name key : Bytes) : Bytes := decDigits name.length ++ [45] ++ name ++ [45] ++ key
+
+/-- the key before the repair: `fmt.Sprintf("%s-%s", name, string(key))` -/
+def chunkKeyUnpatched (name key : Bytes) : Bytes := name ++ [45] ++ key
 
 /-- `GetChunkFieldResult` -/
 def getChunkFieldResult (c : Ctx) (name key : Bytes) : Option (List Value) :=
